@@ -541,7 +541,8 @@ func textSample(rng *hx.Rng, meta *hx.Meta) string {
 		return string([]byte{0xff, 0xfe, 0xc0, 0x80, 'a', 0xed, 0xa0, 0x80})
 	case 2:
 		meta.Count("text", "nul-and-delims")
-		return "a\x00b\r\nc\n\x00"
+		// incl. texts that END in a carriage return or a newline (a codec that "normalises line endings" loses them)
+		return []string{"a\x00b\r\nc\n\x00", "line\r", "\r", "a\r\r", "line\n", "\n", " \t ", "x\r\n"}[rng.Intn(8)]
 	case 3:
 		meta.Count("text", "pool-class-size")
 		return string(wire.Payload(rng, []int{1023, 1024, 1025, 4096, 65536}[rng.Intn(5)]).Bytes())
